@@ -519,6 +519,9 @@ func (db *MultiBucketBackend) PutObject(
 
 	f, err := db.bucketFs.Create(objectFilePath)
 	if err != nil {
+		// The file system refused the name (a segment longer than a file name,
+		// for example): do not leave the directories just made for it behind.
+		db.removeEmptyDirsLocked(bucketName, path.Dir(objectPath))
 		return result, err
 	}
 
